@@ -249,6 +249,9 @@ class AlignmentCollector:
     def process(self):
         alignment_storage = BAMAlignmentStorage(self.bam_merger) if not self.params.high_memory else InMemoryAlignmentStorage()
         for bam_index, alignment in self.bam_merger.get():
+            if alignment.is_unmapped:
+                # unmapped record that carries a position (it is counted as unaligned via the index statistics)
+                continue
             if alignment.is_secondary:
                 self.alignment_stat_counter.add(AlignmentType.secondary)
             elif alignment.is_supplementary:
@@ -296,7 +299,7 @@ class AlignmentCollector:
             corrector = VoidExonCorrector()
 
         for bam_index, alignment in alignment_storage:
-            if alignment.reference_id == -1 or alignment.is_supplementary or \
+            if alignment.reference_id == -1 or alignment.is_unmapped or alignment.is_supplementary or \
                     (self.params.no_secondary and alignment.is_secondary):
                 continue
 
@@ -354,7 +357,7 @@ class AlignmentCollector:
         assignment_storage = []
 
         for bam_index, alignment in alignment_storage:
-            if alignment.reference_id == -1 or alignment.is_supplementary or \
+            if alignment.reference_id == -1 or alignment.is_unmapped or alignment.is_supplementary or \
                     (self.params.no_secondary and alignment.is_secondary):
                 continue
 
